@@ -196,14 +196,23 @@ func trace(req request) result {
 	defer w.Flush()
 	enc := json.NewEncoder(w)
 	enc.Encode(map[string]interface{}{"a": "reset", "cap": req.Cap})
+	// the workload moves through phases: mixed, dirty-heavy (the cache fills with unsaved pages from the
+	// cold end up: long dirty tails, refusals) and clean-heavy (a flush: the dirty pages drain again)
+	type profile struct{ set, get, dirty, setDirtyOf int }
+	profiles := []profile{{40, 65, 85, 3}, {45, 55, 98, 1}, {30, 50, 55, 6}}
+	prof, left := profiles[0], 0
 	for i := 0; i < req.N; i++ {
+		if left == 0 {
+			prof, left = profiles[rng.Intn(len(profiles))], 200+rng.Intn(3*req.Cap+400)
+		}
+		left--
 		s := step{K: uint64(1 + rng.Intn(req.Keys))}
 		switch p := rng.Intn(100); {
-		case p < 40:
-			s.A, s.V, s.D = "set", uint64(1+rng.Intn(1000)), rng.Intn(3) == 0
-		case p < 65:
+		case p < prof.set:
+			s.A, s.V, s.D = "set", uint64(1+rng.Intn(1000)), rng.Intn(prof.setDirtyOf) == 0
+		case p < prof.get:
 			s.A = "get"
-		case p < 85:
+		case p < prof.dirty:
 			s.A = "dirty"
 		default:
 			s.A = "clean"
